@@ -517,6 +517,11 @@ func (c *conn) processMultiple(l cout.Log, h connServer, a string, n *com.Packet
 			// KeyCrypt: Don't call next until the end of the loop, as there may
 			//           be packets encrypted with the old key still in queue.
 			z := c.host.next(false)
+			if z == nil {
+				// NOTE: A Session in Channel mode that was woken up without a Packet
+				//       returns nil here, there's nothing to encrypt or pack.
+				continue
+			}
 			// KeyCrypt: Encrypt next Packet. If this happens to be a re-key,
 			//           it will pass before and affect all after with the new key
 			//           This seems really buggy, but since it happens ONLY on the
